@@ -301,6 +301,8 @@ func (env *ExecEnv) expandParam(fields []*field, pe *ast.ParamExp, mode ExpMode)
 				fields[len(fields)-1].join(strconv.Itoa(n), quote)
 			case !set && env.Opts&NoUnset != 0:
 				goto Unset
+			default:
+				fields[len(fields)-1].join("0", quote)
 			}
 		}
 	default:
